@@ -29,7 +29,7 @@ def gen_cases(tier, seed):
             forms = ["functional", "module"]
             for form in forms:
                 for rep in range(reps):
-                    for icl in ("sweep", "spread", "uniform_big", "moderate", "band"):
+                    for icl in ("sweep", "spread", "uniform_big", "moderate", "band") + (("tied-max",) if op in ("softmax", "log_softmax", "cross_entropy") else ()):
                         c = {"op": op, "dtype": dt, "form": form, "icl": icl, "seed": int(rng.integers(2 ** 31))}
                         if op in ("softmax", "log_softmax"):
                             shp = [[6], [3, 5], [2, 3, 4]][rep % 3]
@@ -49,6 +49,10 @@ def gen_cases(tier, seed):
     return cases
 
 
+def op_of(c):
+    return c["op"]
+
+
 def inputs(rng, c):
     shp = tuple(c["shape"])
     n = int(np.prod(shp))
@@ -61,6 +65,16 @@ def inputs(rng, c):
         v = v + float(rng.uniform(-1, 1)) * (1e4 - spread / 2)
     elif icl == "uniform_big":
         v = rng.uniform(-1e4, 1e4, shp)
+    elif icl == "tied-max":
+        # the largest logit of a row occurs several times exactly (saturated or quantised outputs, a constant row), at any level
+        v = rng.uniform(-1.0, 1.0, shp) * float(rng.choice([1.0, 30.0, 2e3]))
+        if v.ndim >= 1 and v.size:
+            ax = (c.get("dim", -1) if op_of(c) != "cross_entropy" else 1) % v.ndim
+            mx_ = v.max(axis=ax, keepdims=True) + float(rng.choice([0.0, 50.0, 5e3]))
+            pick = rng.random(v.shape) < 0.4
+            v = np.where(pick, mx_, v)
+            if rng.random() < 0.3:
+                v = np.broadcast_to(mx_, v.shape).copy()           # constant along the axis
     elif icl == "band":
         # every element inside (-700, 700) - finite for float64 exp - but far beyond the float32 limit 88.7: magnitudes 150, 400, 650
         v = rng.uniform(-1.0, 1.0, shp) * float([150.0, 400.0, 650.0][int(rng.integers(3))])
@@ -233,6 +247,16 @@ def run_case(ns, mon, c):
                     "counters": counters}
         g = rng.standard_normal(out.shape) if out.shape else np.array(float(rng.uniform(0.5, 2)))
         out_before = np.array(out.data, copy=True)
+        if c["seed"] % 2 == 0:
+            # the op is used again on another input of the same shape and dtype while this result is still alive (two heads, the next batch)
+            try:
+                call(ns, op, c, ns.Tensor((x64 * 0.5 + 1.0).astype(dt), requires_grad=True), extra_t)
+                counters["second_result_alive"] = 1
+            except Exception:
+                pass
+            if out.data.shape != out_before.shape or not np.array_equal(out.data, out_before, equal_nan=True):
+                viol.append(V(sig + ":earlier-result-rewritten-by-later-call", "the result tensor changed when the op was called again on another input of the same shape"))
+                out_before = np.array(out.data, copy=True)
         try:
             out.backward(ns.Tensor(np.asarray(g, dtype=dt)))
             grad = xt.grad.data
